@@ -395,7 +395,9 @@ def driver_code(idx, ch, maxlen_expr):
     # re-open the numeric placeholders
     for i in range(np):
         fmt_desc = fmt_desc.replace("{{n%d}}" % i, "{n%d}" % i)
-    L.append(indent + "let (k, s) = %s;" % call)
+    # a panic inside the macro expansion (e.g. an arithmetic overflow of a counter) is a result too
+    L.append(indent + "let r = std::panic::catch_unwind(std::panic::AssertUnwindSafe(|| %s));" % call)
+    L.append(indent + 'let (k, s, ok) = match r { Ok((k, s)) => (k, s, true), Err(_) => ("PANIC".to_string(), "-".to_string(), false) };')
     L.append(indent + 'let args = format!("{} {} %s", srcd, list(zsrc)%s);' % (fmt_desc, "".join(", n%d = n%d" % (i, i) for i in range(np))))
     # known-finding class: a reversing method after a positional adapter or an unbalanced zip
     L.append(indent + "let mut known = %s;" % ("true" if ch.pos_before_rev else "false"))
@@ -403,8 +405,8 @@ def driver_code(idx, ch, maxlen_expr):
         L.append(indent + "{ let mut cur = slen; for _ in 0..%d { if cur != zsrc.len() { known = true; } cur = cur.min(zsrc.len()); } }" % ch.zips_before_rev)
     shape = "+".join(ch.shape) if ch.shape else "plain"
     L.append(indent + 'let tag = if known { "known-rap" } else if slen == 0 { "-" } else { "%s" };' % shape)
-    L.append(indent + 'out.line("c10.eval", &args, &k, if known { "-" } else { &s }, tag);')
-    L.append(indent + 'out.line("c10.spec", &args, "-", &s, tag);')
+    L.append(indent + 'out.line("c10.eval", &args, &k, if known || !ok { "-" } else { &s }, tag);')
+    L.append(indent + 'if ok { out.line("c10.spec", &args, "-", &s, tag); }')
     for i in range(np):
         indent = indent[:-4]
         L.append(indent + "}")
@@ -483,7 +485,7 @@ def produce(tier, seed, release, out_path):
         src = [common.PRELUDE, SHOW]
         for i, ch in enumerate(part):
             src.append(rust_fn(b + i, ch))
-        src.append("fn main() {\n    let mut out = Out::new();")
+        src.append("fn main() {\n    std::panic::set_hook(Box::new(|_| {}));\n    let mut out = Out::new();")
         for i, ch in enumerate(part):
             src.append("    {\n" + driver_code(b + i, ch, maxlen) + "\n    }")
         src.append("    out.flush();\n}")
